@@ -1,7 +1,7 @@
 (** * C06 proofs, part 4: non-vacuity of the hypotheses of the theorems (concrete inputs satisfying them). *)
 From Coq Require Import Reals ZArith List Lia Lra Bool.
 From Interval Require Import Tactic.
-From LP Require Import Num NumR C06_Model C06_Proofs_Fact C06_Proofs_Gamma.
+From LP Require Import Num NumR C06_Model C06_Proofs_Fact C06_Proofs_Gamma C06_Proofs_Quad C06_Proofs_Inv C06_Proofs_Ser.
 Local Open Scope R_scope.
 
 Lemma loop_fuel_SS : exists f, loop_fuel = S (S f).
@@ -85,4 +85,55 @@ Proof.
     replace (0 * (1 / (2 + 1 - 1)) + (2 + 1 - 1 + 2)) with 4 by field.
     replace (2 + 1 - 1 + 2 + 0 / (1 / dbl_fpmin ROps)) with 4 by (field; lra).
     rewrite (Rabs_pos_eq 4) by lra. split; lra.
+Qed.
+
+(** ** second part *)
+(** C06_gammaq_int_regions: a shape with a non-empty window and an x inside it (a = 400: window [199, 599]) *)
+Example gammaq_int_window_example : 0 < 400 /\ q_tmin 400 <= 400 <= q_tmax 400 /\ q_tmin 400 = 199.
+Proof.
+  assert (E : sqrt 400 = 20) by (replace 400 with (20 * 20) by ring; apply sqrt_square; lra).
+  unfold q_tmin, q_tmax. rewrite E. replace (400 - 1 - 10 * 20) with 199 by ring. rewrite Rmax_right by lra. lra.
+Qed.
+
+(** C06_halley_fixed_point / C06_halley_positive / C06_halley_trace: a positive x at which GammaP answers, i.e. a p for which x is an
+    exact solution (x = 1000, a = 101: right of the quadrature window, P = 1) *)
+Example halley_example : 0 < 1000 /\ exists p, gammap ROps 1000 101 = Ok p /\
+  forall gln a1 lna1 afac, halley ROps p 101 gln a1 lna1 afac 12 1000 = Ok 1000.
+Proof.
+  split; [lra|]. destruct (gammaq_large_a_total 1000 101 ltac:(lra) ltac:(lra)) as (q & Eq & _).
+  exists (1 - q). assert (Ep : gammap ROps 1000 101 = Ok (1 - q)) by (unfold gammap, rmap; rewrite Eq; reflexivity).
+  split; [exact Ep|]. intros. apply halley_fixed_point; [lra|exact Ep].
+Qed.
+
+(** C06_inverse_positive: the hypothesis "Inv_GammaP answers" holds e.g. for every a > 100 (p = 1/2, a = 101) *)
+Example inverse_positive_example : exists r, inv_gammap ROps (1 / 2) 101 = Ok r /\ 0 < r.
+Proof.
+  destruct (inv_gammap_large_a_total (1 / 2) 101 ltac:(lra)) as (r & E & _ & P). exists r. split; [exact E|apply P; lra].
+Qed.
+
+(** C06_binomial_large / C06_binomial_symmetry_all beyond 170 *)
+Example binomial_large_example : exists b, binomial ROps 200 3 = Ok b /\ binomial ROps 200 197 = Ok b.
+Proof.
+  destruct (binomial_large_defined (fact_init ROps) 200 3 ltac:(lia) ltac:(lia)) as (g1 & g2 & g3 & _ & _ & _ & E).
+  eexists. split.
+  - unfold binomial. rewrite E. reflexivity.
+  - rewrite (binomial_symmetry_all 200 197) by lia. replace (200 - 197)%Z with 3%Z by lia. unfold binomial. rewrite E. reflexivity.
+Qed.
+
+(** C06_gser_integer_shape: GammaPser answers at an integer shape and a positive x (a = 1, x = 1e-18: the second term is below 2^-52) *)
+Example gser_integer_example : 0 < 1 / 1000000000000000000 /\ exists v, gammap_ser ROps (1 / 1000000000000000000) (INR 1) = Ok v.
+Proof.
+  split; [lra|]. change (INR 1) with 1.
+  assert (He : dbl_eps ROps = 1 / 4503599627370496).
+  { unfold dbl_eps, pow2_52. cbn [nlit ROps]. replace (2 ^ 52)%Z with 4503599627370496%Z by reflexivity. reflexivity. }
+  unfold gammap_ser. destruct (gammaln_defined 1 ltac:(lra)) as [g Hg]. rewrite Hg. cbn [rbind].
+  destruct loop_fuel_SS as [f Hf]. rewrite Hf.
+  cbn [gser_loop]. unfold ngtb. cbn [nltb nabs nmul nadd ndiv n1 ROps]. rewrite He.
+  replace (1 / 1) with 1 by field. rewrite Rabs_R1.
+  destruct (Rltb_spec (1 * (1 / 4503599627370496)) 1) as [_|H]; [|lra].
+  set (d := 1 * (1 / 1000000000000000000 / (1 + 1))).
+  assert (Hd : d = 1 / 2000000000000000000) by (unfold d; field).
+  rewrite Hd. rewrite (Rabs_pos_eq (1 + 1 / 2000000000000000000)) by lra. rewrite (Rabs_pos_eq (1 / 2000000000000000000)) by lra.
+  destruct (Rltb_spec ((1 + 1 / 2000000000000000000) * (1 / 4503599627370496)) (1 / 2000000000000000000)) as [H|_]; [lra|].
+  cbn [rbind]. eexists; reflexivity.
 Qed.
